@@ -58,6 +58,10 @@ pub struct CallRec {
     pub busy: AtomicBool,
     pub cancelled: AtomicBool,
     pub gate: Option<usize>,
+    /// future_sync through `Desync::future_sync`: when the future the user's closure returned was destroyed (0 = not yet)
+    pub destroyed: AtomicU64,
+    /// the call went through the `Desync` API (the user future holds the protected value)
+    pub via_desync: AtomicBool,
 }
 
 pub struct Payload {
@@ -265,6 +269,37 @@ fn closure_body(ctx: &Arc<Ctx>, node: &Node, obj: usize, thread: usize) -> u64 {
     token(node.id)
 }
 
+/// The future a `Desync::future_sync` closure returns, written by hand the way a user might: it is given the protected value
+/// and keeps hold of it until it is *destroyed* - which takes a moment - not merely until it has produced its result.  So the
+/// operation is over (`end` / `cancel`, the occupancy of the object released) when this future is dropped, and no later
+/// operation of the object may begin before that (C08, C01), whether it ran to completion or was cancelled.
+struct HeldFuture { ctx: Arc<Ctx>, id: usize, obj: usize, gate: Option<usize>, wait: Option<BoxFuture<'static, ()>>, entered: bool, finished: bool }
+impl Future for HeldFuture {
+    type Output = u64;
+    fn poll(mut self: Pin<&mut Self>, cx: &mut std::task::Context<'_>) -> std::task::Poll<u64> {
+        if !self.entered {
+            self.ctx.enter(self.id, self.obj);
+            self.entered = true;
+            let w = self.ctx.gate_future(self.gate);
+            self.wait = Some(w);
+        }
+        match self.wait.as_mut().unwrap().poll_unpin(cx) {
+            std::task::Poll::Pending => std::task::Poll::Pending,
+            std::task::Poll::Ready(()) => { self.finished = true; std::task::Poll::Ready(token(self.id)) }
+        }
+    }
+}
+impl Drop for HeldFuture {
+    fn drop(&mut self) {
+        if !self.entered { return; }
+        // a destructor that takes time: other threads get to run before the future is gone
+        if !std::thread::panicking() { rt::yield_now(); }
+        self.ctx.exit(self.id, self.obj, !self.finished);
+        let t = self.ctx.tick();
+        self.ctx.calls[self.id].destroyed.store(t, Ordering::SeqCst);
+    }
+}
+
 fn future_body(ctx: Arc<Ctx>, id: usize, obj: usize, gate: Option<usize>, counts: bool) -> BoxFuture<'static, u64> {
     async move {
         ctx.enter(id, obj);
@@ -395,7 +430,10 @@ pub fn run_ops(ctx: &Arc<Ctx>, ops: &[Node], thread: usize) {
                 let (c2, id, o2, g2) = (Arc::clone(ctx), node.id, *o, *g);
                 // the returned future borrows the object, so it lives in this frame until the matching await/dropf
                 let fut: Pin<Box<dyn Future<Output = Result<u64, oneshot::Canceled>> + Send + '_>> = match &obj {
-                    Obj::D(d) => Box::pin(d.future_sync(move |_p| future_body(c2, id, o2, g2, false))),
+                    Obj::D(d) => {
+                        ctx.calls[node.id].via_desync.store(true, Ordering::SeqCst);
+                        Box::pin(d.future_sync(move |_p| HeldFuture { ctx: c2, id, obj: o2, gate: g2, wait: None, entered: false, finished: false }.boxed()))
+                    }
                     Obj::Q(q, _) => Box::pin(scheduler::future_sync(q, move || future_body(c2, id, o2, g2, false))),
                 };
                 call_end(ctx, node, thread, "ok");
@@ -670,7 +708,10 @@ pub fn run_ops(ctx: &Arc<Ctx>, ops: &[Node], thread: usize) {
                 if let Some(stream) = stream {
                     rt::emit(&format!("inv {} dropout {}", node.id, s));
                     ctx.out_dropped.lock().unwrap().insert(*s, true);
+                    // dropping the output stream must return (C16): a hang here is attributed to it
+                    ctx.status.lock().unwrap().insert(thread, (node.id, "dropout", *s));
                     drop(stream);
+                    ctx.status.lock().unwrap().remove(&thread);
                     rt::emit(&format!("ret {} ok", node.id));
                 }
             }
@@ -946,6 +987,14 @@ fn check_order(ctx: &Arc<Ctx>) {
                 }
                 continue;
             }
+            if ca.kind == "fsync" && ca.via_desync.load(Ordering::SeqCst) && start_a != 0 && start_b > start_a {
+                // the operation of a future_sync is over when the future its closure returned has been destroyed: until then it
+                // may hold the protected value, so nothing later may begin - whether it ran to completion or was cancelled
+                let destroyed_a = ca.destroyed.load(Ordering::SeqCst);
+                if destroyed_a != 0 && start_b < destroyed_a {
+                    ctx.fail(&["C08", "C01"], format!("operation {} ({}) began (t={}) before the future of future_sync {} was destroyed (t={})", b, cb.kind, start_b, a, destroyed_a));
+                }
+            }
             if inv_b == 0 || start_b == 0 || ret_a >= inv_b { continue; }
             // A returned before B was invoked: A finishes before B starts
             if ca.kind == "fsync" && start_a == 0 { continue; } // never started (cancelled before its slot)
@@ -976,6 +1025,7 @@ pub fn classify_deadlock(ctx: &Arc<Ctx>) -> Failure {
             "wait-kept-futures" => { add("C06"); add("C03"); add("C07"); }
             "waitcount" => { add("C10"); add("C03"); }
             "next" => { add("C12"); }
+            "dropout" => { add("C16"); }
             "pipe" | "pipein" => { add("C11"); add("C04"); }
             "desync" | "fdesync" | "after" | "fsync" | "trysync" | "suspend" => { add("C03"); if *kind == "trysync" { add("C09"); } }
             _ => {}
